@@ -5,7 +5,7 @@
    op 2: propagate_dft of wavefronts given directly by their fields (whole array / cropped sub-arrays
          with offsets), several variants of one plane.
    Scalar: the group ring Q(i)[C_L]; the square root of the unitary factor is applied by the harness. *)
-From LV Require Import Extract.PlaneCodec Model.Segment.
+From LV Require Import Extract.PlaneCodec Model.Segment Model.SegmentFft.
 From LV Require Model.Fft.
 Require Import ExtrOcamlBasic.
 
@@ -75,13 +75,9 @@ Definition fcall_run (L : nat) (w : Fft.wavefront (GRS L)) (c : fcall) : list Z 
   | Ok (out, _) => 0 :: fst (Fft.wshape out) :: snd (Fft.wshape out) :: eresult (earr L) (Fft.wfield out)
   | Err e => [1; errcode e]
   end.
-Definition to_fft (L : nat) (w : pwf (GRS L)) : result (Fft.wavefront (GRS L)) :=
-  match pw_shape w, pw_pix w, pw_focal w with
-  | Some sh, Some px, FVal z => Ok (Fft.mkWf (pw_data w) sh (pw_lam w) px z Fft.PPupil)
-  | _, _, _ => Err ValueError
-  end.
+(* to_fft: Model/SegmentFft.v (the glue the theorems C03_fft_* are about) *)
 Definition fvariant (L : nat) (w0 : pwf (GRS L)) (ps : list (result (celem (GRS L)))) (c : fcall) : list Z :=
-  match rbind (chain_r L ps w0) (to_fft L) with
+  match rbind (chain_r L ps w0) to_fft with
   | Err e => [1; errcode e]
   | Ok w => 0 :: fcall_run L w c
   end.
@@ -131,6 +127,13 @@ Definition run (inp : list Z) : list Z :=
             let '(orr, occ) := slice_offset (SBox r0 r1 c0 c1) (nr g) (nc g) in
             mkField (D2 (force (aslice g r0 r1 c0 c1))) orr occ [] in
           0 :: elist (fun sl => fcall_run L (Fft.mkWf (map mk sl) (nr g, nc g) lam (dxr, dxc) z Fft.PPupil) c) vs
+      | None => emalformed end
+    else if op =? 9 then   (* helper.slice_offset(index expression, shape) *)
+      match pall (t <- pZ ;; r0 <- pZ ;; r1 <- pZ ;; c0 <- pZ ;; c1 <- pZ ;; n <- pZ ;; m <- pZ ;; pret (t, (r0, r1, c0, c1), (n, m))) rest with
+      | Some (t, (r0, r1, c0, c1), (n, m)) =>
+          let s := if t =? 0 then SlEllipsis else if t =? 1 then SlEllFull else if t =? 2 then SlEllOther
+                   else SlPair r0 r1 c0 c1 in
+          eresult (fun '(a, b) => [a; b]) (slice_offset_any s n m)
       | None => emalformed end
     else if op =? 4 then   (* one segmented pupil with per-segment tilts: the views after the propagation *)
       match pall (lam <- pQ ;; segs <- plist (p_plane L) ;; c <- pcall ;; pret (lam, segs, c)) rest with
